@@ -21,6 +21,7 @@ import (
 	"os"
 	"path/filepath"
 	"sort"
+	"strconv"
 	"strings"
 
 	. "verif/harness/hlib"
@@ -305,22 +306,37 @@ func c19Exec(op string) string {
 		return res(s.serv.Update(f[1], func(w wallet.Wallet) error {
 			if f[2] == "FAIL" {
 				w.SetLabel("half-done") // the callback mutates its clone, then fails
+				w.SetTimestamp(1400000000)
 				return errors.New("callback failed")
 			}
-			w.SetLabel(f[2])
+			setLabelAge(w, f[2])
 			return nil
 		}))
 	case "updsec":
 		return res(s.serv.UpdateSecrets(f[1], pwOf(f[2]), func(w wallet.Wallet) error {
 			if f[3] == "FAIL" {
 				w.SetLabel("half-done")
+				w.SetTimestamp(1400000000)
 				return errors.New("callback failed")
 			}
-			w.SetLabel(f[3])
+			setLabelAge(w, f[3])
 			return nil
 		}))
 	}
 	panic("harness: unknown op " + f[0])
+}
+
+// setLabelAge: the update callbacks set the label; a label `<text>@<secs>` also BACKDATES the wallet (meta.tm has one
+// second resolution and every wallet of a case is created within the same second: without this no wallet is ever
+// older than the operation applied to it).  Memory and a freshly started service must agree on tm as on every
+// other meta field (the `bytes=` comparison).
+func setLabelAge(w wallet.Wallet, label string) {
+	w.SetLabel(label)
+	if i := strings.Index(label, "@"); i >= 0 {
+		secs, err := strconv.ParseInt(label[i+1:], 10, 64)
+		must(err)
+		w.SetTimestamp(1700000000 - secs)
+	}
 }
 
 type gw struct {
@@ -330,6 +346,7 @@ type gw struct {
 }
 
 func c19Gen(r *Rng, tier string, emit func(string)) {
+	ages := []int64{1, 2, 59, 3600, 86400, 31536000, 200000000}
 	cases := 60
 	if tier == "thorough" {
 		cases = 1500
@@ -460,6 +477,13 @@ func c19Gen(r *Rng, tier string, emit func(string)) {
 					seed = w.seed
 				}
 				pw := r.Intn(3)
+				if r.Chance(50) { // the wallet about to be recovered is not from this very second
+					if w := mem[id]; w != nil && w.enc != 0 && r.Bool() {
+						emit(fmt.Sprintf("updsec %s %d A%d@%d", id, w.enc, r.Intn(9), ages[r.Intn(len(ages))]))
+					} else {
+						emit(fmt.Sprintf("update %s A%d@%d", id, r.Intn(9), ages[r.Intn(len(ages))]))
+					}
+				}
 				emit(fmt.Sprintf("recover %s %s %d", id, seed, pw))
 				if w := mem[id]; w != nil && w.enc != 0 && w.typ != "collection" && seed == w.seed {
 					w.enc = pw
@@ -488,6 +512,8 @@ func c19Gen(r *Rng, tier string, emit func(string)) {
 				l := fmt.Sprintf("U%d", r.Intn(9))
 				if r.Chance(30) {
 					l = "FAIL"
+				} else if r.Chance(50) {
+					l += fmt.Sprintf("@%d", ages[r.Intn(len(ages))])
 				}
 				if r.Bool() {
 					emit(fmt.Sprintf("update %s %s", id, l))
